@@ -729,9 +729,9 @@ class Prop:
     required_theorems = ['bfd_decode_total', 'bfd_accepts_iff_wellformed',
                          'rtr_decode_no_panic', 'rtr_decode_progress', 'rtr_complete_frame_decided',
                          'rtr_need_only_if_incomplete', 'rtr_fragmentation_invariant',
-                         'bgp_parse_no_panic_partial', 'bgp_parse_consumes_partial',
-                         'bgp_complete_frame_decided_partial', 'bgp_need_only_if_incomplete_partial',
-                         'bgp_fragmentation_invariant_partial', 'bgp_errors_are_notifications_partial']
+                         'bgp_parse_no_panic', 'bgp_parse_consumes',
+                         'bgp_complete_frame_decided', 'bgp_need_only_if_incomplete',
+                         'bgp_fragmentation_invariant', 'bgp_errors_are_notifications']
     correspondence_name = ('Model/Bfd.v bfd_decode vs packet/src/bfd.rs Message::decode; Model/Rtr.v rtr_decode vs packet/src/rpki.rs '
                            'RtrCodec::decode; Model/Wire*.v try_parse vs packet/src/bgp.rs PeerCodec::try_parse/parse_message (with vpn.rs, '
                            'labeled.rs, mpls.rs, rd.rs); each driven chunk by chunk as run_select / FramedRead do '
